@@ -109,7 +109,8 @@ theorem parse_render_float_partial (fns : List Bytes) (e : E) (hw : e.WF lpOp.pr
     stream (nested calls, three layouts), not proved. -/
 def parse_render_Statement : Prop :=
   ∀ (fns : List Bytes) (f : Bytes) (args : List E) (ws : Nat → Bytes),
-    f ∈ fns → AtomOK stdOps f → (∀ k, Blank (ws k)) → (∀ a ∈ args, a.WF lpOp.prec ∧ a.In stdOps) →
+    f ∈ fns → AtomOK stdOps f → (∀ k, Blank (ws k)) →
+    (∀ a ∈ args, a.WF lpOp.prec ∧ a.In stdOps ∧ (44 : Nat) ∉ render ws 0 (a.toks lpOp rpOp)) →
     let texts := args.map (fun a => render ws 0 (a.toks lpOp rpOp))
     parseTop stdOps fns (f ++ LP ++ joinComma texts ++ RP) = .ok (some (.func none f (joinComma texts))) ∧
     (args ≠ [] → splitArgs ((joinComma texts).length + 1) (joinComma texts) = texts)
